@@ -12,10 +12,7 @@ import (
 	"mcverif/sched"
 )
 
-type (
-	Locker = sync.Locker
-	Cond   = sync.Cond
-)
+type Locker = sync.Locker
 
 // Pool is a deterministic sync.Pool: a LIFO stack with scheduling points and no random dropping (the real pool
 // drops and steals at the runtime's whim, and under the race detector on purpose at random; every behaviour of
@@ -66,7 +63,78 @@ func (p *Pool) Put(x any) {
 	p.mu.Unlock()
 }
 
-func NewCond(l Locker) *Cond { return sync.NewCond(l) }
+// Cond is sync.Cond under the scheduler: Wait releases L, then is a scheduling point that is enabled once a Signal
+// or Broadcast has picked the waiter, then takes L again. Outside an execution it is the real condition variable.
+type Cond struct {
+	L       Locker
+	real    *sync.Cond
+	waiters []*condWaiter
+}
+
+type condWaiter struct{ woken bool }
+
+//go:norace
+func (w *condWaiter) EnabledFor(string) bool { return w.woken }
+
+func NewCond(l Locker) *Cond { return &Cond{L: l} }
+
+//go:norace
+func (c *Cond) EnabledFor(string) bool { return true }
+
+//go:norace
+func (c *Cond) realCond() *sync.Cond {
+	if c.real == nil {
+		c.real = sync.NewCond(c.L)
+	}
+	return c.real
+}
+
+//go:norace
+func (c *Cond) enqueue() *condWaiter {
+	w := &condWaiter{}
+	c.waiters = append(c.waiters, w)
+	return w
+}
+
+//go:norace
+func (c *Cond) wake(all bool) {
+	for len(c.waiters) > 0 {
+		c.waiters[0].woken = true
+		c.waiters = c.waiters[1:]
+		if !all {
+			return
+		}
+	}
+}
+
+func (c *Cond) Wait() {
+	if !sched.Active() {
+		c.realCond().Wait()
+		return
+	}
+	w := c.enqueue()
+	c.L.Unlock()
+	sched.Point("cond.wait", w)
+	c.L.Lock()
+}
+
+func (c *Cond) Signal() {
+	if !sched.Active() {
+		c.realCond().Signal()
+		return
+	}
+	sched.Point("cond.signal", c)
+	c.wake(false)
+}
+
+func (c *Cond) Broadcast() {
+	if !sched.Active() {
+		c.realCond().Broadcast()
+		return
+	}
+	sched.Point("cond.broadcast", c)
+	c.wake(true)
+}
 
 func OnceFunc(f func()) func() { return sync.OnceFunc(f) }
 
